@@ -11,7 +11,7 @@ use identity_core::common::{StringOrUrl, Timestamp, Url};
 use identity_core::convert::{FromJson, ToJson};
 use identity_credential::credential::{RevocationBitmapStatus, Status};
 use identity_credential::sd_jwt_vc::{Resolver, SdJwtVc};
-use identity_did::DIDUrl;
+use identity_did::{DIDUrl, DID};
 use identity_document::document::CoreDocument;
 use identity_jose::jwk::Jwk;
 use identity_jose::jws::JwsAlgorithm;
